@@ -94,8 +94,9 @@ def check_call(cfg, call):
                       f"call() raised {tname} (object {ident}); the last attempt raised object "
                       f"{last.obj} ({last.label})"))
         else:
-            if tname != "OpError":
-                v.append(("c04.exception-type", f"raised type {tname}, original OpError"))
+            want_type = "TimeoutError" if last.label == "timeout" else "OpError"
+            if tname != want_type:
+                v.append(("c04.exception-type", f"raised type {tname}, original {want_type}"))
             raised_n = sum(1 for o in call.ops if o.obj == last.obj)
             if tb is None or not tb[0] or tb[1] != raised_n:
                 v.append(("c04.traceback",
